@@ -182,6 +182,7 @@ def run(ctx):
                 ctx.violation('angular spectrum returns non-finite values at dx = lambda/sqrt(2) exactly',
                               {'api': api, 'n': n, 'm': m, 'dx': dx, 'lam': lam, 'z': 1.0},
                               {'api': api, 'method': 'as', 'what': 'nan_at_sampling_boundary'})
+    from .genkernels import check_generated_kernels; check_generated_kernels(ctx)   # kernels regenerated from the source vs implementation
 
 
 def replay(ctx, rep):
